@@ -27,3 +27,37 @@ Definition rgbw_min_sub (c : rgb) : rgbw :=
 
 Definition rgbw_fixed (c : rgb) (w : Z) : rgbw :=
   mkrgbw (red c) (green c) (blue c) w.
+
+(** ---- float parts of colors.c, bit-exact on binary32 (Base/F32.v) ---- *)
+From Coq Require Import QArith Qround.
+From SB Require Import Base.Num Base.F32.
+Local Open Scope Z_scope.
+
+(** sb_rgb_color_linear_interpolation, one channel:
+    (uint8_t) clamp(first + (second - first) * ratio, 0, 255) *)
+Definition interp_channel (a b : Z) (ratio : Q) : Z :=
+  let v := fadd (inject_Z a) (fmul (inject_Z (b - a)) ratio) in
+  if Qltb v 0 then 0 else if Qltb (inject_Z 255) v then 255 else ftrunc v.
+
+Definition interp_rgb (c1 c2 : rgb) (ratio : Q) : rgb :=
+  mkrgb (interp_channel (red c1) (red c2) ratio) (interp_channel (green c1) (green c2) ratio)
+        (interp_channel (blue c1) (blue c2) ratio).
+
+(** sb_rgbw_conversion_use_reference_color + sb_rgb_color_to_rgbw (reference method) *)
+Definition ref_mul (ref : rgb) : Q * Q * Q :=
+  let mx := Z.max 1 (Z.max (red ref) (Z.max (green ref) (blue ref))) in
+  let m (c : Z) := if 1 <=? c then fdiv (inject_Z mx) (inject_Z c) else inject_Z 255 in
+  (m (red ref), m (green ref), m (blue ref)).
+
+Definition rgbw_reference (c ref : rgb) : rgbw :=
+  let '(m0, m1, m2) := ref_mul ref in
+  let d0 := fdiv 1 m0 in let d1 := fdiv 1 m1 in let d2 := fdiv 1 m2 in
+  let s0 := fmul (inject_Z (red c)) m0 in
+  let s1 := fmul (inject_Z (green c)) m1 in
+  let s2 := fmul (inject_Z (blue c)) m2 in
+  let mn := Qmin' (Qmin' s0 s1) s2 in
+  let w := if Qle_bool mn 0 then 0 else if Qle_bool mn (inject_Z 255) then ftrunc mn else 255 in
+  let chan (x : Z) (d : Q) :=
+    let corr := fmul (inject_Z w) d in
+    if Qltb corr (inject_Z x) then ftrunc (fsub (inject_Z x) corr) else 0 in
+  mkrgbw (chan (red c) d0) (chan (green c) d1) (chan (blue c) d2) w.
